@@ -105,7 +105,10 @@ var perturbations = []perturbation{
 			out = append(out, l)
 			// add blank lines only between two lines that both start a token (never inside strings/comments)
 			if strings.TrimSpace(l) == "" && i+1 < len(lines) && starts[i+2] && i > 0 && (starts[i] || strings.TrimSpace(lines[i-1]) == "") {
-				out = append(out, "", "")
+				// one, two or three more blank lines (runs of 2, 3 and 4 empty lines)
+				for k := r.Intn(3); k >= 0; k-- {
+					out = append(out, "")
+				}
 			}
 		}
 		return []byte(strings.Join(out, "\n"))
